@@ -35,30 +35,45 @@ Definition w_group : option str := Some [103].
 
 (** the behaviour before commit 5ae6bde7: the labels of the first object survive the second write *)
 Lemma stale_fields_old :
-  exists f1 f2, to_hdf5 false spec_GM [] w_group w_rich true = (f1, None) /\ to_hdf5 false spec_GM f1 w_group w_poor true = (f2, None)
+  exists f1 f2, to_hdf5 VOld0 spec_GM [] w_group w_rich true = (f1, None) /\ to_hdf5 VOld0 spec_GM f1 w_group w_poor true = (f2, None)
     /\ exists o', from_hdf5 spec_GM 0 f2 w_group = inl o' /\ attr "taxa" o' = Some (OS (VStrs [[97]; [98]])) /\ attr "taxa" w_poor = None.
 Proof. eexists. eexists. split; [vm_compute; reflexivity|]. split; [vm_compute; reflexivity|]. eexists. split; [vm_compute; reflexivity|]. split; reflexivity. Qed.
 (** the code as it stands reads the second object back *)
 Lemma stale_fields_fixed :
-  exists f1 f2, to_hdf5 true spec_GM [] w_group w_rich true = (f1, None) /\ to_hdf5 true spec_GM f1 w_group w_poor true = (f2, None)
+  exists f1 f2, to_hdf5 VCur spec_GM [] w_group w_rich true = (f1, None) /\ to_hdf5 VCur spec_GM f1 w_group w_poor true = (f2, None)
     /\ exists o', from_hdf5 spec_GM 0 f2 w_group = inl o' /\ attr "taxa" o' = None.
 Proof. eexists. eexists. split; [vm_compute; reflexivity|]. split; [vm_compute; reflexivity|]. eexists. split; [vm_compute; reflexivity|]. reflexivity. Qed.
 Lemma w_objs_wf : wf_obj spec_GM w_rich = true /\ wf_obj spec_GM w_poor = true /\ In spec_GM flat_classes.
 Proof. split; [vm_compute; reflexivity|]. split; [vm_compute; reflexivity|]. vm_compute. tauto. Qed.
 
-(** nested dictionaries (genomic-model hyper-parameters) are never cleared: the code as it stands does not read back the
-    last model written *)
+(** the behaviour before commit 6c7554cf: nested dictionaries (genomic-model hyper-parameters) were never cleared, the
+    hyper-parameter of the first model survived the second write *)
 Definition w_model (h : list (str * option sval)) : obj :=
   [("beta", Some (OS (VArr TF64 [1; 1] [4607182418800017408]))); ("u_misc", Some (OS (VArr TF64 [0; 1] [])));
    ("u_a", Some (OS (VArr TF64 [1; 1] [4611686018427387904]))); ("trait", None); ("model_name", Some (OS (VStr []))); ("hyperparams", Some (OD h))]%string.
-Lemma stale_hyperparams :
-  exists f1 f2, to_hdf5 true spec_ALGM [] (Some [109]) (w_model [([97], Some (VFloat 4609434218613702656))]) true = (f1, None)
-    /\ to_hdf5 true spec_ALGM f1 (Some [109]) (w_model []) true = (f2, None)
+Lemma stale_hyperparams_old :
+  exists f1 f2, to_hdf5 VOld1 spec_ALGM [] (Some [109]) (w_model [([97], Some (VFloat 4609434218613702656))]) true = (f1, None)
+    /\ to_hdf5 VOld1 spec_ALGM f1 (Some [109]) (w_model []) true = (f2, None)
     /\ exists o', from_hdf5 spec_ALGM 1 f2 (Some [109]) = inl o'
                   /\ attr "hyperparams" o' = Some (OD [([97], Some (VArr TF64 [] [4609434218613702656]))]) /\ attr "hyperparams" (w_model []) = Some (OD []).
 Proof. eexists. eexists. split; [vm_compute; reflexivity|]. split; [vm_compute; reflexivity|]. eexists. split; [vm_compute; reflexivity|]. split; reflexivity. Qed.
-(** a str hyper-parameter comes back as bytes *)
-Lemma lossy_hyperparams :
-  exists f1, to_hdf5 true spec_ALGM [] (Some [109]) (w_model [([107], Some (VStr [114]))]) true = (f1, None)
-    /\ exists o', from_hdf5 spec_ALGM 1 f1 (Some [109]) = inl o' /\ attr "hyperparams" o' = Some (OD [([107], Some (VBytes [114]))]).
+(** the code as it stands reads the second model back *)
+Lemma stale_hyperparams_fixed :
+  exists f1 f2, to_hdf5 VCur spec_ALGM [] (Some [109]) (w_model [([97], Some (VFloat 4609434218613702656))]) true = (f1, None)
+    /\ to_hdf5 VCur spec_ALGM f1 (Some [109]) (w_model []) true = (f2, None)
+    /\ from_hdf5 spec_ALGM 1 f2 (Some [109]) = inl (w_model []).
+Proof. eexists. eexists. split; [vm_compute; reflexivity|]. split; [vm_compute; reflexivity|]. vm_compute. reflexivity. Qed.
+(** the reader before commit 06cf6bbd handed a str hyper-parameter back as bytes; the reader as it stands returns the str *)
+Lemma lossy_hyperparams_old :
+  exists f1, to_hdf5 VCur spec_ALGM [] (Some [109]) (w_model [([107], Some (VStr [114]))]) true = (f1, None)
+    /\ exists o', old_from_hdf5 spec_ALGM 1 f1 (Some [109]) = inl o' /\ attr "hyperparams" o' = Some (OD [([107], Some (VBytes [114]))]).
 Proof. eexists. split; [vm_compute; reflexivity|]. eexists. split; [vm_compute; reflexivity|]. reflexivity. Qed.
+Lemma lossy_hyperparams_fixed :
+  exists f1, to_hdf5 VCur spec_ALGM [] (Some [109]) (w_model [([107], Some (VStr [114]))]) true = (f1, None)
+    /\ from_hdf5 spec_ALGM 1 f1 (Some [109]) = inl (w_model [([107], Some (VStr [114]))]).
+Proof. eexists. split; [vm_compute; reflexivity|]. vm_compute. reflexivity. Qed.
+(** still true of the code as it stands: a hyper-parameter whose value is None has no HDF5 representation and is dropped *)
+Lemma none_hyperparam_dropped :
+  exists f1, to_hdf5 VCur spec_ALGM [] (Some [109]) (w_model [([107], None)]) true = (f1, None)
+    /\ from_hdf5 spec_ALGM 1 f1 (Some [109]) = inl (w_model []).
+Proof. eexists. split; [vm_compute; reflexivity|]. vm_compute. reflexivity. Qed.
